@@ -65,10 +65,19 @@ type asyncSubscriberNats struct {
 	closeChan    chan struct{}
 	subscription NatsSubscription
 
+	// Closed when "run" has returned.
+	done chan struct{}
+	// If set, "run" only starts processing after the channel has been closed,
+	// i.e. after the previous subscriber for the same key has finished. This
+	// keeps the order of events for a listener that is removed and added again.
+	previous <-chan struct{}
+	// Called after "done" has been closed.
+	onDone func()
+
 	processMessage func(*nats.Msg)
 }
 
-func newAsyncSubscriberNats(key string, client NatsClient) (*asyncSubscriberNats, error) {
+func newAsyncSubscriberNats(key string, client NatsClient, previous <-chan struct{}) (*asyncSubscriberNats, error) {
 	receiver := make(chan *nats.Msg, 64)
 	sub, err := client.Subscribe(key, receiver)
 	if err != nil {
@@ -82,6 +91,9 @@ func newAsyncSubscriberNats(key string, client NatsClient) (*asyncSubscriberNats
 		receiver:     receiver,
 		closeChan:    make(chan struct{}),
 		subscription: sub,
+
+		done:     make(chan struct{}),
+		previous: previous,
 	}
 	return result, nil
 }
@@ -91,7 +103,15 @@ func (s *asyncSubscriberNats) run() {
 		if err := s.subscription.Unsubscribe(); err != nil {
 			log.Printf("Error unsubscribing %s: %s", s.key, err)
 		}
+		close(s.done)
+		if s.onDone != nil {
+			s.onDone()
+		}
 	}()
+
+	if s.previous != nil {
+		<-s.previous
+	}
 
 	for {
 		select {
@@ -115,8 +135,8 @@ type asyncBackendRoomSubscriberNats struct {
 	asyncBackendRoomSubscriber
 }
 
-func newAsyncBackendRoomSubscriberNats(key string, client NatsClient) (*asyncBackendRoomSubscriberNats, error) {
-	sub, err := newAsyncSubscriberNats(key, client)
+func newAsyncBackendRoomSubscriberNats(key string, client NatsClient, previous <-chan struct{}) (*asyncBackendRoomSubscriberNats, error) {
+	sub, err := newAsyncSubscriberNats(key, client, previous)
 	if err != nil {
 		return nil, err
 	}
@@ -144,8 +164,8 @@ type asyncRoomSubscriberNats struct {
 	*asyncSubscriberNats
 }
 
-func newAsyncRoomSubscriberNats(key string, client NatsClient) (*asyncRoomSubscriberNats, error) {
-	sub, err := newAsyncSubscriberNats(key, client)
+func newAsyncRoomSubscriberNats(key string, client NatsClient, previous <-chan struct{}) (*asyncRoomSubscriberNats, error) {
+	sub, err := newAsyncSubscriberNats(key, client, previous)
 	if err != nil {
 		return nil, err
 	}
@@ -173,8 +193,8 @@ type asyncUserSubscriberNats struct {
 	asyncUserSubscriber
 }
 
-func newAsyncUserSubscriberNats(key string, client NatsClient) (*asyncUserSubscriberNats, error) {
-	sub, err := newAsyncSubscriberNats(key, client)
+func newAsyncUserSubscriberNats(key string, client NatsClient, previous <-chan struct{}) (*asyncUserSubscriberNats, error) {
+	sub, err := newAsyncSubscriberNats(key, client, previous)
 	if err != nil {
 		return nil, err
 	}
@@ -202,8 +222,8 @@ type asyncSessionSubscriberNats struct {
 	asyncSessionSubscriber
 }
 
-func newAsyncSessionSubscriberNats(key string, client NatsClient) (*asyncSessionSubscriberNats, error) {
-	sub, err := newAsyncSubscriberNats(key, client)
+func newAsyncSessionSubscriberNats(key string, client NatsClient, previous <-chan struct{}) (*asyncSessionSubscriberNats, error) {
+	sub, err := newAsyncSubscriberNats(key, client, previous)
 	if err != nil {
 		return nil, err
 	}
@@ -234,6 +254,9 @@ type asyncEventsNats struct {
 	roomSubscriptions        map[string]*asyncRoomSubscriberNats
 	userSubscriptions        map[string]*asyncUserSubscriberNats
 	sessionSubscriptions     map[string]*asyncSessionSubscriberNats
+
+	// Subscribers that have been closed but are still running, by key.
+	closing map[string]chan struct{}
 }
 
 func NewAsyncEventsNats(client NatsClient) (AsyncEvents, error) {
@@ -244,8 +267,27 @@ func NewAsyncEventsNats(client NatsClient) (AsyncEvents, error) {
 		roomSubscriptions:        make(map[string]*asyncRoomSubscriberNats),
 		userSubscriptions:        make(map[string]*asyncUserSubscriberNats),
 		sessionSubscriptions:     make(map[string]*asyncSessionSubscriberNats),
+
+		closing: make(map[string]chan struct{}),
 	}
 	return events, nil
+}
+
+// closeSubscriber closes a subscriber without listeners. A subscriber created
+// for the same key afterwards will wait until the closed one has finished.
+// Must be called with "e.mu" held.
+func (e *asyncEventsNats) closeSubscriber(sub *asyncSubscriberNats) {
+	key := sub.key
+	done := sub.done
+	e.closing[key] = done
+	sub.onDone = func() {
+		e.mu.Lock()
+		defer e.mu.Unlock()
+		if e.closing[key] == done {
+			delete(e.closing, key)
+		}
+	}
+	sub.close()
 }
 
 func (e *asyncEventsNats) GetServerInfoNats() *BackendServerInfoNats {
@@ -323,7 +365,7 @@ func (e *asyncEventsNats) RegisterBackendRoomListener(roomId string, backend *Ba
 	sub, found := e.backendRoomSubscriptions[key]
 	if !found {
 		var err error
-		if sub, err = newAsyncBackendRoomSubscriberNats(key, e.client); err != nil {
+		if sub, err = newAsyncBackendRoomSubscriberNats(key, e.client, e.closing[key]); err != nil {
 			return err
 		}
 
@@ -345,7 +387,7 @@ func (e *asyncEventsNats) UnregisterBackendRoomListener(roomId string, backend *
 
 	if !sub.removeListener(listener) {
 		delete(e.backendRoomSubscriptions, key)
-		sub.close()
+		e.closeSubscriber(sub.asyncSubscriberNats)
 	}
 }
 
@@ -357,7 +399,7 @@ func (e *asyncEventsNats) RegisterRoomListener(roomId string, backend *Backend, 
 	sub, found := e.roomSubscriptions[key]
 	if !found {
 		var err error
-		if sub, err = newAsyncRoomSubscriberNats(key, e.client); err != nil {
+		if sub, err = newAsyncRoomSubscriberNats(key, e.client, e.closing[key]); err != nil {
 			return err
 		}
 
@@ -379,7 +421,7 @@ func (e *asyncEventsNats) UnregisterRoomListener(roomId string, backend *Backend
 
 	if !sub.removeListener(listener) {
 		delete(e.roomSubscriptions, key)
-		sub.close()
+		e.closeSubscriber(sub.asyncSubscriberNats)
 	}
 }
 
@@ -391,7 +433,7 @@ func (e *asyncEventsNats) RegisterUserListener(roomId string, backend *Backend, 
 	sub, found := e.userSubscriptions[key]
 	if !found {
 		var err error
-		if sub, err = newAsyncUserSubscriberNats(key, e.client); err != nil {
+		if sub, err = newAsyncUserSubscriberNats(key, e.client, e.closing[key]); err != nil {
 			return err
 		}
 
@@ -413,7 +455,7 @@ func (e *asyncEventsNats) UnregisterUserListener(roomId string, backend *Backend
 
 	if !sub.removeListener(listener) {
 		delete(e.userSubscriptions, key)
-		sub.close()
+		e.closeSubscriber(sub.asyncSubscriberNats)
 	}
 }
 
@@ -425,7 +467,7 @@ func (e *asyncEventsNats) RegisterSessionListener(sessionId string, backend *Bac
 	sub, found := e.sessionSubscriptions[key]
 	if !found {
 		var err error
-		if sub, err = newAsyncSessionSubscriberNats(key, e.client); err != nil {
+		if sub, err = newAsyncSessionSubscriberNats(key, e.client, e.closing[key]); err != nil {
 			return err
 		}
 
@@ -447,7 +489,7 @@ func (e *asyncEventsNats) UnregisterSessionListener(sessionId string, backend *B
 
 	if !sub.removeListener(listener) {
 		delete(e.sessionSubscriptions, key)
-		sub.close()
+		e.closeSubscriber(sub.asyncSubscriberNats)
 	}
 }
 
